@@ -804,3 +804,35 @@ def arm_words(co, site, idx, call_sym, edge_extra=None, stmt_sym=None):
     """Words of select arm `idx` from its entry to either the loop head (ends '<stop>' = continues the loop)
     or a function exit."""
     return seq_words(co, call_sym, stmt_sym, edge_extra, strict=False, start=site["arms"][idx], stops=[site["head"]])
+
+
+def ite_of(body, o, local):
+    """For a local assigned constants on the two sides of one branch: ('ite', cond_term, value_if_true, value_if_false)."""
+    ds = [d for d in body.defs().get(local, []) if d[0] == "assign"]
+    if len(ds) != 2 or len(body.defs().get(local, [])) != 2:
+        return None
+    vals = []
+    for d in ds:
+        v = const_of(o.of_rvalue(d[3]))
+        if v is None:
+            # maybe `&""`: ref of a const local
+            t = strip_identity(o.of_rvalue(d[3]))
+            v = const_of(t)
+        if v is None:
+            return None
+        vals.append((d[1], v))
+    for i, bl in enumerate(body.blocks):
+        if bl.get("cleanup") or bl["t"]["k"] != "switch":
+            continue
+        si = switch_info(body, i, o)
+        if si is None:
+            continue
+        subj, labels = si
+        tt = [t for t, ls in labels.items() if ls == {"true"}]
+        ff = [t for t, ls in labels.items() if ls == {"false"}]
+        if len(tt) != 1 or len(ff) != 1:
+            continue
+        for (b1, v1), (b2, v2) in ((vals[0], vals[1]), (vals[1], vals[0])):
+            if body.dominates(tt[0], b1) and body.dominates(ff[0], b2) and not body.dominates(tt[0], b2) and not body.dominates(ff[0], b1):
+                return ("ite", subj, v1, v2)
+    return None
